@@ -171,4 +171,16 @@ example : ∃ s, runFrom pGood init
     [.accept 1, .accept 2, .accept 2, .dial 3, .runRecv, .runPark, .runRecv, .runPark, .runRecv, .runPark,
      .dial 2, .dialTake 1, .tick 5000, .dialTimeout 0]).get (by decide), by simp, by decide, by decide, by decide⟩
 
+/-! ### concurrent dials do not share their dialer -/
+
+/-- **The connection dialled for id n is dialled to n's listener**, whatever other dial runs concurrently with the
+same caller-supplied option slice and however their writes interleave. -/
+theorem dial_reaches_own_id (D : DialParams) (hD : D.Good) (id other : Nat) (b : Bool) : dialReaches D id other b = id := by
+  have : D.optsFresh = true := hD
+  simp [dialReaches, this]
+
+/-- appending the per-id dialer onto the caller's slice: two concurrent dials with a shared slice, and the connection
+for id 101 is dialled to id 125's listener -/
+theorem shared_opts_witness : dialReaches ⟨false⟩ 101 125 true = 125 := by decide
+
 end GoPlugin.Props.C07
